@@ -124,6 +124,7 @@ ares_socket_t *ares_htable_asvp_keys(const ares_htable_asvp_t *htable,
 
   buckets = ares_htable_all_buckets(htable->hash, &cnt);
   if (buckets == NULL || cnt == 0) {
+    ares_free(buckets);
     return NULL;
   }
 
